@@ -30,6 +30,8 @@ THEOREMS = [
     "C13_start_picks",
     "C13_restart_at_most_once",
     "C13_source_shape",
+    "C13_stream_ticks_complete",
+    "C13_tick_stream_shape",
 ]
 LEAN_TARGETS = ["WfProps.C13"]
 EXPLANATION = (
@@ -53,7 +55,13 @@ EXPLANATION = (
     "runner: buffer, heap, started workers, state), plus context_from_ticks on truncated stores, plus the handler selection on generated "
     "handler tables; the start query, the exit-status table, the shape of replay_ticks_stream (rewind first, one reduce per tick, no early exit), 'on_tick before the command loop' and 'validate before replay' are re-extracted from the sources into GenReplay.lean and pinned by C13_source_shape. Search: the process is stopped at the instant the k-th tick is persisted (for EVERY k), restarted, and the run must end "
     "with the uninterrupted run's status, result and state-store contents; finalized handlers must not enter any step; ticks must be "
-    "persisted before any of their commands take effect."
+    "persisted before any of their commands take effect. Reading the log back: model TickStream (SqliteWorkflowStore.stream_ticks: keyset pages of _TICK_PAGE_SIZE rows, cursor = last "
+    "row yielded, stop on a short page); C13_stream_ticks_complete: for every strictly increasing sequence column of any length and every positive page size the stream is exactly "
+    "get_ticks' rows, in order, none skipped or repeated; C13_tick_stream_shape pins the page size, both page queries, the cursor assignment and the exit test re-extracted from the source. "
+    "Tie: `stream` op on the table's own sequence column for logs below, at and beyond 1, 2, 3 pages (page size read from the source on every run). Search: stream_ticks, get_ticks and "
+    "stream_workflow_ticks of both stores against what append_tick was given (a second run interleaved); a chain persisting more than two pages of ticks restarted from the sqlite and memory "
+    "stores at stops beyond one and two pages and after its end (same result and state store as uninterrupted; the restart must replay every persisted tick once, in order). The harness' "
+    "notion of 'the persisted log' is the record of append_tick calls, not a read of the store."
 )
 LEVEL_TEXT = "proof (refuted clauses recorded as known findings; quiescent-prefix part proved)"
 ASSUMPTIONS = suite.ENGINE_ASSUMPTIONS + [
@@ -64,10 +72,11 @@ ASSUMPTIONS = suite.ENGINE_ASSUMPTIONS + [
     "error strings are abstracted to their origin (step exception id, timeout, no-state, resume error)",
     "the model replays with the live configuration (catch_error tables included): true of the code since the repair fix-C13 (context_from_ticks validates first); on the unrepaired tree C13_source_shape and the `restart` correspondence fail",
     "C13_state_kept assumes the live state's running flag is set (it is after the start tick unless the run ended); theorems are about logs of runs started fresh (logs that span a resume: C13_refuted_second_restart)",
-    "postgres / DBOS stores are not run",
+    "postgres / DBOS / agent-data stores are not run (their paginated stream_ticks are separate code with the same page loop)",
+    "TickStream: a run's sequence column is strictly increasing (append_tick assigns MAX(sequence)+1 per run under one writer; checked on every generated log)",
 ]
 TRUSTED_EXTRA = [
-    "harness/server/stack.py, harness/server/restart.py: in-process WorkflowServer wiring, store views with a kill switch, tick-log truncation",
+    "harness/server/stack.py, harness/server/restart.py: in-process WorkflowServer wiring, store views with a kill switch and a record of every append_tick call (the reference log), tick-log truncation",
 ]
 
 NOSTATE = "handler crashed before persisting any state; cannot resume"
@@ -111,7 +120,7 @@ def restart_lines(res: restart.CaseResult, pi: int, cfg_line: str) -> tuple[list
     rw0 = next((c for c in rp if c.kind == "rewind"), None)
     reds = [c for c in rp if c.kind == "reduce"]
     runrw = next((c for c in calls if c.caller == "run" and c.kind == "rewind"), None)
-    ticks = res.ticks[: ph.ticks_at_start]
+    ticks = res.ticks[: ph.ticks_at_start]  # what append_tick was given (not a read of the store): the model replays the WHOLE persisted log
     now0 = rw0.now if rw0 is not None else ph.vtime_start
     nows = sorted({c.now for c in reds})
     now = nows[0] if nows else now0
@@ -270,7 +279,7 @@ def judge_single(base: restart.CaseResult, r: restart.CaseResult, k: int, out: O
     sig = f"C13/{kindw}_after_{loss}" if loss else f"C13/resumed_run_{kindw}"
     vol = r.phases[0].volatile or {}
     out.violations.append(Violation(sig, f"stop after persisted tick {k} of {n} ({enc.tick(base.ticks[k - 1])[:60]}): uninterrupted {want[0]} {want[1]}, "
-                                         f"after restart {got[0]} {got[1]} error={r.error!r}; volatile at the stop: buffer {vol.get('buffer')} (events {vol.get('buffer_events')}), "
+                                         f"after restart {got[0]} {got[1]} error={r.error!r}{' (state store ' + want[2][:80] + ' vs ' + got[2][:80] + ')' if kindw == 'wrong_store' else ''}; volatile at the stop: buffer {vol.get('buffer')} (events {vol.get('buffer_events')}), "
                                          f"mailbox {vol.get('mailbox')} (events {vol.get('mailbox_events')}), timers {vol.get('timers')}", payload))
     return kindw + (":" + loss if loss else "")
 
@@ -282,6 +291,268 @@ def judge_zero(r: restart.CaseResult, out: Outcome, payload: dict) -> None:
     p1 = r.phases[1]
     if p1.active_after_start or entered(r, 1):
         out.violations.append(Violation("C13/empty_log_resumed", "a handler without any persisted tick was started again", payload))
+
+
+# --------------------------------------------------------------------------
+# reading the persisted log back: stream_ticks / get_ticks against what append_tick was given
+
+
+def page_size(out: Outcome | None = None) -> int:
+    """the sqlite store's page size: the literal in the source (harness/gen/replay.py), cross-checked with the imported module"""
+    from ..gen import replay as genreplay
+
+    notes: list[str] = []
+    lit = genreplay.tick_page_size(notes)
+    try:
+        from llama_agents.server._store.sqlite import sqlite_workflow_store as SQ
+
+        live_ps = getattr(SQ, genreplay.PAGE_CONST, None)
+    except Exception as e:  # pragma: no cover
+        live_ps = None
+        notes.append(f"sqlite store module not importable: {e!r}")
+    ps = live_ps if isinstance(live_ps, int) and not isinstance(live_ps, bool) and live_ps > 0 else lit
+    if out is not None:
+        for n_ in notes:
+            if n_ not in out.notes:
+                out.notes.append(n_)
+        if lit is not None and isinstance(live_ps, int) and lit != live_ps and "page size literal differs from the module attribute" not in " ".join(out.notes):
+            out.notes.append(f"page size literal differs from the module attribute: {lit} vs {live_ps}")
+    return ps if isinstance(ps, int) and ps > 0 else 100
+
+
+def _is_subseq(a: list, b: list) -> bool:
+    it = iter(b)
+    return all(any(x == y for y in it) for x in a)
+
+
+def seq_diff(want: list[str], got: list[str]) -> tuple[str, str] | None:
+    """how a read `got` of a log differs from the log `want` (both canonical strings, in order)"""
+    if got == want:
+        return None
+    i = next((j for j in range(min(len(want), len(got))) if want[j] != got[j]), min(len(want), len(got)))
+    where = f"first difference at position {i} of {len(want)} (read has {len(got)} entries)"
+    if len(got) < len(want) and _is_subseq(got, want):
+        return "drops_persisted_tick", where + f": {len(want) - len(got)} persisted tick(s) missing, the first one is #{i}"
+    if len(got) > len(want) and _is_subseq(want, got):
+        return "repeats_persisted_tick", where + f": {len(got) - len(want)} tick(s) too many"
+    if sorted(got) == sorted(want):
+        return "reorders_persisted_ticks", where
+    return "differs_from_persisted_log", where
+
+
+def rows_diff(want_data: list, rows: list) -> tuple[str, str] | None:
+    """StoredTick rows of a read against the tick_data append_tick was given, in order"""
+    bad = next((x for x in rows if isinstance(x, str)), None)
+    if bad is not None:
+        return "raises", bad
+    d = seq_diff([json.dumps(x, sort_keys=True, default=repr) for x in want_data],
+                 [json.dumps(x.tick_data, sort_keys=True, default=repr) for x in rows])
+    if d is not None:
+        return d
+    seqs = [x.sequence for x in rows]
+    if any(b <= a for a, b in zip(seqs, seqs[1:])):
+        return "sequence_not_increasing", f"sequence numbers {seqs[:6]}..."
+    return None
+
+
+def check_store_reads(r: restart.CaseResult, out: Outcome, payload: dict) -> bool:
+    """at the end of a real run: both readers of the store return exactly the ticks the run persisted"""
+    ok = True
+    for reader, rows in (("stream_ticks", r.streamed), ("get_ticks", r.listed)):
+        d = rows_diff(r.appended_data, rows)
+        if d is not None:
+            ok = False
+            out.violations.append(Violation(f"C13/{reader}_{d[0]}:{r.kind}",
+                                            f"{r.kind} store, run of {len(r.appended_data)} persisted ticks: {reader}() {d[1]}", payload))
+    out.count("S:store_reads_checked")
+    return ok
+
+
+def replay_input(r: restart.CaseResult, pi: int) -> tuple[list, bool] | None:
+    """the ticks the restart of phase `pi` fed to the reducer (replay_ticks_stream), and whether the replay raised"""
+    got: list = []
+    started = False
+    for c in r.phase_calls(pi):
+        if not started:
+            if c.caller == "replay_ticks_stream" and c.kind == "rewind":
+                started = True
+            continue
+        if c.caller != "replay_ticks_stream" or c.kind != "reduce":
+            break
+        got.append(c.tick)
+        if c.error is not None:
+            return got, True
+    return (got, False) if started else None
+
+
+def check_replay_input(r: restart.CaseResult, pi: int, out: Outcome, payload: dict) -> bool:
+    """mechanism: the restart replays every persisted tick, once, in log order"""
+    ri = replay_input(r, pi)
+    if ri is None:
+        return True
+    got_t, raised = ri
+    want = [enc.tick(t) for t in r.ticks[: r.phases[pi].ticks_at_start]]
+    got = [enc.tick(t) for t in got_t]
+    if raised and got[:-1] == want[: len(got) - 1]:
+        return True  # a replay that raised stops where it raised (judged by its outcome)
+    d = seq_diff(want, got)
+    out.count("S:replay_input_checked")
+    if d is None:
+        return True
+    i = next((j for j in range(min(len(want), len(got))) if want[j] != got[j]), min(len(want), len(got)))
+    out.violations.append(Violation(f"C13/replay_input_{d[0]}:{r.kind}",
+                                    f"{r.kind} store, stop after {len(want)} persisted ticks: the restart replayed {len(got)} ticks; {d[1]}"
+                                    + (f" ({want[i][:60]})" if i < len(want) else "")
+                                    + f"; after the restart the run ended {r.status} result {res_value(r.result)!r} store {r.store!r}", payload))
+    return False
+
+
+def store_pages(case: dict, out: Outcome, ops: list[str], exp: list[str], owner: list) -> None:
+    """append n = pages*P+extra ticks to one run (`other` ticks of a second run interleaved) and read them back"""
+    from llama_agents.server._store.abstract_workflow_store import stream_workflow_ticks
+    from workflows.runtime.types import ticks as T
+    from workflows.runtime.types.ticks import WorkflowTickAdapter
+
+    P = page_size(out)
+    kind = case["kind"]
+    n = case["n"] if "n" in case else max(0, int(case.get("pages", 0)) * P + int(case.get("extra", 0)))
+    other = int(case.get("other", 0))
+    rng = random.Random(case.get("seed", 0))
+    payload = {"store_pages": dict(case)}
+    got: dict[str, Any] = {}
+
+    async def main(loop: Any) -> None:
+        inner, db_path = Stack.make_store(kind, restart._fast_db_path() if kind == "sqlite" else None)
+        try:
+            order = ["r1"] * n + ["r2"] * other
+            rng.shuffle(order)
+            want: dict[str, list] = {"r1": [], "r2": [], "never": []}
+            for rid in order:
+                i = len(want[rid])
+                tick = T.TickAddEvent(event=ET.T5(uid=(1000 if rid == "r1" else 500000) + i, k=i % 7)) if i % 5 else T.TickIdleCheck()
+                td = WorkflowTickAdapter.dump_python(tick, mode="json")
+                await inner.append_tick(rid, td)
+                want[rid].append(json.loads(json.dumps(td)))
+            got["want"] = want
+            for rid in want:
+                rd: dict[str, Any] = {}
+                for name, fn in (("stream_ticks", lambda: _collect(inner.stream_ticks(rid))), ("get_ticks", lambda: inner.get_ticks(rid))):
+                    try:
+                        rd[name] = list(await fn())
+                    except Exception as e:
+                        rd[name] = [f"<raised {type(e).__name__}: {e}>"]
+                try:
+                    rd["typed"] = [enc.tick(t) async for t in stream_workflow_ticks(inner, rid)]
+                except Exception as e:
+                    rd["typed"] = [f"<raised {type(e).__name__}: {e}>"]
+                got[rid] = rd
+            if kind == "sqlite" and db_path is not None:
+                import sqlite3
+
+                conn = sqlite3.connect(db_path, timeout=30.0)
+                try:
+                    got["seqs"] = {rid: [x[0] for x in conn.execute("SELECT sequence FROM ticks WHERE run_id = ? ORDER BY sequence, id", (rid,)).fetchall()]
+                                   for rid in want}
+                finally:
+                    conn.close()
+        finally:
+            if db_path:
+                for suf in ("", "-wal", "-shm"):
+                    try:
+                        os.unlink(db_path + suf)
+                    except OSError:
+                        pass
+
+    run_virtual(main, max_time=1_000_000.0)
+    out.evaluations += 1
+    rel = "=" if n % P == 0 else ("<" if n < P else ">")
+    out.count(f"pages:{kind}:n{rel}{n // P}P")
+    out.nontrivial(("store_pages", kind, n, other, case.get("seed", 0)))
+    want = got.get("want", {})
+    for rid in want:
+        for reader in ("stream_ticks", "get_ticks"):
+            d = rows_diff(want[rid], got[rid][reader])
+            if d is not None:
+                out.violations.append(Violation(f"C13/{reader}_{d[0]}:{kind}",
+                                                f"{kind} store (page size {P}), {len(want[rid])} ticks appended to run {rid!r}"
+                                                f"{' interleaved with ' + str(len(want['r2' if rid == 'r1' else 'r1'])) + ' of another run' if rid != 'never' else ''}: "
+                                                f"{reader}() {d[1]}", payload))
+        typed_want = [enc.tick(WorkflowTickAdapter.validate_python(copy.deepcopy(x))) for x in want[rid]]
+        d2 = seq_diff(typed_want, got[rid]["typed"])
+        if d2 is not None and rows_diff(want[rid], got[rid]["stream_ticks"]) is None:
+            out.violations.append(Violation(f"C13/stream_workflow_ticks_{d2[0]}:{kind}", f"{kind} store, {len(want[rid])} ticks: stream_workflow_ticks {d2[1]}", payload))
+        # K: the paginated reader of the sqlite store against the model, on the sequence column as it is in the table
+        if kind == "sqlite" and "seqs" in got:
+            ops.append("stream %d %s" % (P, enc.lst([str(x) for x in got["seqs"][rid]])))
+            rows = got[rid]["stream_ticks"]
+            exp.append(enc.lst([str(x.sequence) for x in rows]) if not any(isinstance(x, str) for x in rows) else "raised")
+            owner.append(payload)
+            out.count("K:stream")
+            out.count("K:stream:rows", len(got["seqs"][rid]))
+
+
+async def _collect(agen: Any) -> list:
+    return [x async for x in agen]
+
+
+def long_chain_spec(last: int) -> dict:
+    """one deterministic chain through a single gated step: `last`+1 invocations, three persisted ticks each; every invocation
+    bumps a counter in the state store exactly once, so a forked or shortened chain shows in the store even when the result agrees"""
+    return {"steps": [{"name": "s00", "accepts": [0], "nw": 1, "retry": None, "script": [["ret", "5"]]},
+                      {"name": "s02", "accepts": [5], "nw": 1, "retry": None,
+                       "script": [["gate"], ["store_incr", "n"], ["chain", 5, last], ["ret", "stop", "uid"]]}],
+            "externals": [], "det_uids": True}
+
+
+MAX_CHAIN = 400
+
+
+def long_chain(kind: str, total_pages: int, targets: list[int] | None, out: Outcome, ops: list[str], exp: list[str], owner: list,
+               dense: bool = False, tag: str = "long") -> None:
+    """a run whose persisted log exceeds `total_pages` pages, restarted at stop points given as numbers of persisted ticks
+    (`targets`, each moved to the next quiescent point: the tick that started an invocation now waiting at its gate), plus the
+    very end (finalize); `dense`: every stop in a window around each page boundary as well"""
+    from workflows.runtime.types import ticks as T
+
+    P = page_size(out)
+    last = min(MAX_CHAIN, (total_pages * P + 20) // 3 + 1)
+    if last == MAX_CHAIN:
+        out.notes.append(f"long chain capped at {MAX_CHAIN} invocations (page size {P})")
+    spec = long_chain_spec(last)
+
+    def stops(base: restart.CaseResult) -> list[int]:
+        n = len(base.ticks)
+        quiet = [k for k in range(1, n) if isinstance(base.ticks[k - 1], T.TickAddEvent)]
+        ks: list[int] = []
+        for t in (targets if targets is not None else [P // 2, P + 1, P + P // 2, 2 * P + 1, n - 4]):
+            k = next((q for q in quiet if q >= t), None)
+            if k is not None and k not in ks:
+                ks.append(k)
+        if dense:
+            for b in range(1, n // P + 1):
+                ks += [k for k in range(max(1, b * P - 2), min(n, b * P + 7)) if k not in ks]
+            ks += [k for k in quiet[::9] if k not in ks]
+        out.count(f"{tag}:{kind}:log_pages", n // P)
+        return ks + [n]
+
+    all_prefixes(spec, 11, kind, out, ops, exp, owner, f"{tag}:{kind}", only=stops)
+
+
+def paging_case(case: dict, out: Outcome, ops: list[str], exp: list[str], owner: list) -> None:
+    if "store_pages" in case:
+        store_pages(case["store_pages"], out, ops, exp, owner)
+    elif "long_chain" in case:
+        c = case["long_chain"]
+        P = page_size(out)
+        long_chain(c["kind"], int(c.get("total_pages", 2)), [int(float(x) * P) + 1 for x in c.get("stops_after_pages", [1])], out, ops, exp, owner,
+                   tag="corpus_long")
+
+
+def load_paging_corpus() -> list[dict]:
+    p = os.path.join(suite.CORPUS_DIR, "c13_paging.json")
+    if os.path.exists(p):
+        return json.load(open(p))["cases"]
+    return []
 
 
 # --------------------------------------------------------------------------
@@ -385,7 +656,7 @@ def persist_lines(base: restart.CaseResult, ops: list[str], exp: list[str], owne
 
 
 def all_prefixes(spec: dict, seed: int, kind: str, out: Outcome, ops: list[str], exp: list[str], owner: list, tag: str,
-                 only: list[int] | None = None) -> restart.CaseResult | None:
+                 only: Any = None) -> restart.CaseResult | None:
     base = restart.run_crash_case(copy.deepcopy(spec), seed, kind, horizon=HORIZON)
     out.evaluations += 1
     payload0 = case_payload(spec, seed, kind, [])
@@ -395,13 +666,14 @@ def all_prefixes(spec: dict, seed: int, kind: str, out: Outcome, ops: list[str],
             out.violations.append(Violation("C13/uninterrupted_run_unfinished", f"the uninterrupted run is still running after {HORIZON}s (virtual)", payload0))
         return None
     check_persist_before_effects(base, out, payload0)
+    check_store_reads(base, out, case_payload(spec, seed, kind, [len(base.ticks)]))
     persist_lines(base, ops, exp, owner, payload0, out)
     n = len(base.ticks)
     out.count(f"{tag}:runs")
     out.count(f"{tag}:ticks", n)
     out.count(f"{tag}:baseline:{base.status}")
     cfgl = cfg_line_of(base)
-    ks = list(range(0, n + 1)) if only is None else only
+    ks = list(range(0, n + 1)) if only is None else (only(base) if callable(only) else only)
     if spec.get("_only_last"):
         ks = [n]
     for k in ks:
@@ -417,6 +689,9 @@ def all_prefixes(spec: dict, seed: int, kind: str, out: Outcome, ops: list[str],
                 out.count(f"{tag}:not_reproducible")
                 out.notes.append(f"prefix {k} of a re-run differed from its baseline log; skipped (spec seed {seed})")
                 continue
+            if len(r.phases) > 1:
+                check_replay_input(r, 1, out, payload)
+            check_store_reads(r, out, payload)
             t = judge_single(base, r, k, out, payload)
             out.nontrivial((json.dumps(spec, sort_keys=True), seed, kind, k))
         out.count(f"{tag}:{t}")
@@ -873,6 +1148,9 @@ class _FixedInts(random.Random):
 
 
 def replay_case(case: dict, out: Outcome, ops: list[str], exp: list[str], owner: list) -> None:
+    if "store_pages" in case or "long_chain" in case:
+        paging_case(case, out, ops, exp, owner)
+        return
     if "crash" not in case:
         return
     c = case["crash"]
@@ -895,7 +1173,8 @@ def _run(env: Env) -> Outcome:
     out.rule = ("deterministic fan-out/collect workflows (specgen.gen_det_spec; 1..3 workers, retries without delay; a share with retry delays for "
                 "classification; a family of steps suspended in wait_for_event with/without requirements answered from outside) plus hand-picked edge workflows for every exit kind, on the real server stack with memory and sqlite stores; "
                 "for every k in 0..n the process is stopped when the k-th tick is persisted and restarted; non-trivial = a stop at 1 <= k <= n that was "
-                "reached; distinct by (spec, schedule seed, store, k). K: model `restart`/`ctx`/`pick` ops on the same tick lines")
+                "reached; distinct by (spec, schedule seed, store, k). K: model `restart`/`ctx`/`pick` ops on the same tick lines; plus logs of n ticks (n below/at/beyond 1..3 store pages, a second run interleaved) appended to a store and read back "
+                "(`stream` op), and one chain of > 2 pages of ticks restarted beyond each page boundary")
     rng = random.Random(env.rng.randrange(1 << 30))
     ops: list[str] = []
     exp: list[str] = []
@@ -906,9 +1185,29 @@ def _run(env: Env) -> Outcome:
     # ---- corpus: known-finding witnesses and edge workflows (every exit kind), every prefix
     for w in load_witnesses():
         replay_case(w, out, ops, exp, owner)
+    # ---- corpus: the log read back page by page (store level), and a long run restarted beyond one / two pages (sqlite)
+    for w in load_paging_corpus():
+        paging_case(w, out, ops, exp, owner)
     for name, spec in EDGE_SPECS:
         for kind in (("memory", "sqlite") if name in ("linear", "fails") else ("memory",)):
             all_prefixes(spec, 11, kind, out, ops, exp, owner, "edge:" + name)
+    # ---- long runs (more than two pages of persisted ticks) restarted at several stop points, both stores
+    thorough = env.tier != "quick"
+    # (quick: the sqlite long run is the corpus case above)
+    if thorough:
+        long_chain("sqlite", 2, None, out, ops, exp, owner, dense=True)
+    long_chain("memory", 2, None, out, ops, exp, owner, dense=thorough)
+    if thorough:
+        long_chain("sqlite", 3, None, out, ops, exp, owner, dense=False, tag="long3")
+    # ---- store level: log sizes around and beyond the page boundaries, both stores
+    P = page_size(out)
+    sizes = [0, 1, P - 1, P, P + 1, 2 * P - 1, 2 * P, 2 * P + 1, 3 * P, 3 * P + 2]
+    for kind in ("sqlite", "memory"):
+        for n_ in (sizes if thorough else []):  # quick: the boundary sizes are the corpus cases
+            store_pages({"kind": kind, "n": max(0, n_), "other": rng.choice([0, 0, 3, P + 5]), "seed": rng.randrange(1 << 30)}, out, ops, exp, owner)
+        for _ in range(env.budget(2, 12) if kind == "sqlite" else env.budget(1, 4)):
+            store_pages({"kind": kind, "n": rng.randint(0, 3 * P + P // 2), "other": rng.choice([0, 2, rng.randint(0, 2 * P)]),
+                         "seed": rng.randrange(1 << 30)}, out, ops, exp, owner)
     # ---- generated stream
     n_mem = env.budget(5, 110)
     n_sql = env.budget(1, 30)
@@ -935,7 +1234,7 @@ def _run(env: Env) -> Outcome:
     # ---- handler selection
     pick_corr(env, out, env.budget(8, 150), ops, exp, owner)
     # ---- malformed lines
-    bad = ["restart x", "ctx 1 2 P 0 1 TQ", "pick 1 1 0 0 1 1 1 bogus _ 0", "replay 1000 1000 P 0 2 TI", "status extra"]
+    bad = ["stream 0 1 1", "stream 3 2 1", "restart x", "ctx 1 2 P 0 1 TQ", "pick 1 1 0 0 1 1 1 bogus _ 0", "replay 1000 1000 P 0 2 TI", "status extra"]
     ops += bad
     exp += ["bad-op"] * len(bad)
     owner += [None] * len(bad)
@@ -948,7 +1247,7 @@ def _run(env: Env) -> Outcome:
     mo = [canon_pick(m) if o.startswith("pick ") and m != "bad-op" else m for o, m in zip(ops, mo)] + mo[len(ops):]
     exp = [m if e is None else e for e, m in zip(exp, mo)] + exp[len(mo):]
     out.disagreements_checked += len(ops)
-    out.traces_validated += sum(1 for o in ops if o.startswith(("restart ", "ctx ", "pick ")))
+    out.traces_validated += sum(1 for o in ops if o.startswith(("restart ", "ctx ", "pick ", "stream ")))
     d = diff_streams("replay", ops, mo, exp)
     if d is not None:
         a, b = d.model_out, d.impl_out
